@@ -1,4 +1,4 @@
-"""Extractor for the position-conversion unit (Verus, C15): convert::from_pos and convert::from_range, verbatim, with
+"""Extractor for the position-conversion unit (Verus, C15): convert::{from_file, from_pos, from_file_pos, from_range}, verbatim, with
 
   R17  `ensure!(COND, "message", args..);` -> `if !(COND) { return Err(verif_error()); }`, `bail!(..)` -> `return Err(verif_error())`
        (what anyhow's macros expand to, minus the construction of the message, which no contract mentions)
@@ -66,7 +66,7 @@ def rewrite_bail(body):
 def extract(repo):
     conv = Source(os.path.join(repo, 'crates/glas/src/convert.rs'))
     items, notes = [], []
-    for name in ('from_pos', 'from_range'):
+    for name in ('from_file', 'from_pos', 'from_file_pos', 'from_range'):
         found = False
         for nm, fs, fo, fc in fns_in(conv, 0, 0, len(conv.text)):
             if nm == name:
